@@ -3,6 +3,8 @@ package main
 import (
 	"fmt"
 	"regexp"
+	"sort"
+	"strconv"
 	"strings"
 
 	"golang.org/x/tools/go/ssa"
@@ -45,6 +47,9 @@ func runC19(c *Ctx) {
 	if opener == nil || nSites != 1 {
 		c.check(false, "start-gating", "request-table-call-sites", "-", "", fmt.Sprintf("the request-table callback is invoked from %d sites, expected exactly one", nSites))
 		return
+	}
+	if ra2 := resolveRegAnchors(p); ra2.openerCore == opener && ra2.opener != nil {
+		opener = ra2.opener // the call sits in a helper of the function that pops the players
 	}
 	c.role("table opener", fnKey(opener))
 	c.ok("start-gating", "request-table-call-sites", p.FnPos(opener), "the request-table callback is invoked from one site, in "+fnKey(opener))
@@ -109,6 +114,7 @@ func runC19(c *Ctx) {
 	{
 		c.touch(fnKey(opener))
 		s := regSumm(p, 0)
+		s.HelperInline = resolveRegAnchors(p).helperFilter(p, opener)
 		fp, _ := s.Function(opener)
 		var bad2 []string
 		// with no table yet: paths reaching the loop have playerCount >= minInitialPlayers
@@ -263,10 +269,28 @@ func runC19(c *Ctx) {
 	sync := p.Func(regPkg, "regulator", "SyncState")
 	var rp *ssa.Function
 	if sync != nil {
+		// the popper SyncState (or one of its helpers) calls: the outermost one, chosen the same
+		// way on every run
+		var cands []*ssa.Function
 		for f := range ra.poppers {
 			if ix.Info[sync].TCalls[f] {
+				cands = append(cands, f)
+			}
+		}
+		sort.Slice(cands, func(i, j int) bool { return fnKey(cands[i]) < fnKey(cands[j]) })
+		for _, f := range cands {
+			inner := false
+			for _, g := range cands {
+				if g != f && ix.Info[g] != nil && ix.Info[g].TCalls[f] {
+					inner = true // f is called by another popper: f is the inner one
+				}
+			}
+			if !inner && rp == nil {
 				rp = f
 			}
+		}
+		if rp == nil && len(cands) > 0 {
+			rp = cands[0]
 		}
 	}
 	if rp == nil || sync == nil {
@@ -277,17 +301,63 @@ func runC19(c *Ctx) {
 	{
 		s := regSumm(p, 0)
 		var bad3 []string
-		loops := s.loops(rp)
-		if len(loops) != 1 {
+		// the popper SyncState calls may be a pass-through of the one that holds the loop
+		lp, cntParam := rp, ssa.Value(nil)
+		if len(rp.Params) > 1 {
+			cntParam = rp.Params[1]
+		}
+		for d := 0; d < 3 && len(s.loops(lp)) == 0 && cntParam != nil; d++ {
+			var inner *ssa.Function
+			var innerCnt ssa.Value
+			for _, b := range lp.Blocks {
+				for _, in := range b.Instrs {
+					call, ok := in.(*ssa.Call)
+					if !ok {
+						continue
+					}
+					f := call.Call.StaticCallee()
+					if f == nil || !ra.poppers[f] || f == lp {
+						continue
+					}
+					for i, a := range call.Call.Args {
+						if a == cntParam && i < len(f.Params) {
+							inner, innerCnt = f, f.Params[i]
+						}
+					}
+				}
+			}
+			if inner == nil {
+				break
+			}
+			lp, cntParam = inner, innerCnt
+		}
+		c.touch(fnKey(lp))
+		loops := s.loops(lp)
+		if len(loops) == 0 && ra.bulk[lp] && cntParam != nil {
+			// bulk pop: the number cut off never exceeds the requested count
+			paths, _ := s.Function(lp)
+			for _, ps := range paths {
+				for _, e := range ps.storesTo("regulator.regulator.waitingQueue") {
+					v := e.Val.String()
+					if !strings.HasPrefix(v, "slice(recv.waitingQueue, ") {
+						continue
+					}
+					nStr := strings.TrimSuffix(strings.TrimPrefix(v, "slice(recv.waitingQueue, "), ", _, _)")
+					if msg := bulkPopAtMost(ps, nStr, "param:"+cntParam.Name()); msg != "" {
+						bad3 = append(bad3, msg)
+					}
+				}
+			}
+		} else if len(loops) != 1 {
 			bad3 = append(bad3, "requestPlayers is not a single loop")
 		} else {
 			ci := analyseCounting(loops[0])
-			if !ci.OK || ci.Step != 1 || ci.Op != "<" || ci.Bound != ssa.Value(rp.Params[1]) {
+			if !ci.OK || ci.Step != 1 || ci.Op != "<" || ci.Bound != cntParam {
 				bad3 = append(bad3, "the pop loop is not bounded by the requested count")
 			} else if c0, ok := constInt(ci.Init); !ok || c0 != 0 {
 				bad3 = append(bad3, "the pop loop does not start at 0")
 			}
-			body, _ := s.LoopBody(rp, loops[0])
+			body, _ := s.LoopBody(lp, loops[0])
 			for _, bp := range body {
 				if bp.End != "continue" {
 					continue
@@ -369,4 +439,53 @@ func isDecimal(v string) bool {
 		}
 	}
 	return true
+}
+
+// bulkPopAtMost: on path ps, n players are cut off the queue; the path's condition implies
+// n <= max(count, 0) (grid).
+func bulkPopAtMost(ps *PathSum, n string, count string) string {
+	ints, bools := tableVars([]*PathSum{ps})
+	has := func(t string) bool {
+		for _, x := range ints {
+			if x == t {
+				return true
+			}
+		}
+		return false
+	}
+	var nAff *Aff
+	if k, err := strconv.ParseInt(n, 10, 64); err == nil {
+		nAff = affConst(k)
+	} else {
+		nAff = affTerm(n)
+		if !has(n) {
+			ints = append(ints, n)
+		}
+	}
+	if !has(count) {
+		ints = append(ints, count)
+	}
+	msg := ""
+	enumGridR(ints, func(name string) (int64, int64) {
+		if strings.HasPrefix(name, "len(") {
+			return 0, 4
+		}
+		return -2, 5
+	}, bools, nil, func(a Asg) bool {
+		holds, ok := evalPath(ps, a)
+		if !ok || !holds {
+			return true
+		}
+		v, ok := evalAff(nAff, a)
+		lim := a.I[count]
+		if lim < 0 {
+			lim = 0
+		}
+		if !ok || v > lim {
+			msg = fmt.Sprintf("%d players are popped for a request of %d", v, a.I[count])
+			return false
+		}
+		return true
+	})
+	return msg
 }
